@@ -50,6 +50,23 @@ def _to_highest_power_of_two(n: int) -> int:
     return int(max(2 ** math.ceil(math.log2(n)), 8))
 
 
+CPP_KEYWORDS = frozenset(
+    """alignas alignof and and_eq asm auto bitand bitor bool break case catch char
+    char16_t char32_t class compl const constexpr const_cast continue decltype default
+    delete do double dynamic_cast else enum explicit export extern false float for
+    friend goto if inline int long mutable namespace new noexcept not not_eq nullptr
+    operator or or_eq private protected public register reinterpret_cast return short
+    signed sizeof static static_assert static_cast struct switch template this
+    thread_local throw true try typedef typeid typename union unsigned using virtual
+    void volatile wchar_t while xor xor_eq""".split()
+)
+
+
+def _to_namespace(protocol: str) -> str:
+    """Namespace of a protocol header: a keyword (`default`) gets a trailing underscore."""
+    return protocol + "_" if protocol in CPP_KEYWORDS else protocol
+
+
 class ToCpp(TypeVisitor):
     """Fcp type to cpp conversion."""
 
@@ -211,7 +228,11 @@ class Generator(CodeGenerator):
             output_builder.with_file(
                 "fcp_" + protocol + ".h",
                 "fcp.h.j2",
-                {"fcp": fcp, "namespace": protocol, "protocol": protocol},
+                {
+                    "fcp": fcp,
+                    "namespace": _to_namespace(protocol),
+                    "protocol": protocol,
+                },
             )
 
         for service in fcp.services:
